@@ -231,6 +231,29 @@ func ruleLintNarrow(c *Ctx, r *Rep) {
 			r.Check(base == 10, "decimal-parse|"+c.FuncKey(fn), c.Pos(ci.Pos()), "base 10 (a count or octet written with leading zeros is still decimal)", sprintf("base %d", base))
 		}
 	}
+	// a byte taken out of a string and converted to a string is read as a code point: every byte of a multi-byte
+	// character becomes a character of its own (text rebuilt byte by byte comes out as Latin-1 mojibake)
+	for _, fn := range c.Funcs {
+		n := 0
+		for _, b := range fn.Blocks {
+			for _, ins := range b.Instrs {
+				cv, ok := ins.(*ssa.Convert)
+				if !ok || !isStringish(cv.Type()) {
+					continue
+				}
+				from, ok := cv.X.Type().Underlying().(*types.Basic)
+				if !ok || from.Kind() != types.Uint8 {
+					continue
+				}
+				idx, ok := cv.X.(*ssa.Index)
+				if !ok || !isStringish(idx.X.Type()) {
+					continue
+				}
+				n++
+				r.Check(false, sprintf("byte-as-rune|%s#%d", c.FuncKey(fn), n), c.Pos(cv.Pos()), "text is copied as text (a slice of the string), not byte by byte through string(s[i])", "string(s[i]) of a string's byte")
+			}
+		}
+	}
 	// a 64-bit number changes its sign when converted between signed and unsigned: a configured value of 2^63 and above
 	// would become negative (a negative serial number, a negative count)
 	for _, fn := range c.Funcs {
